@@ -121,7 +121,7 @@ def enclosing_fn_of_line(gen_lines, line):
     return None
 
 
-def run_unit(unit, rlimit=30, seed=None, outdir=None, extra_flags=()):
+def run_unit(unit, rlimit=30, seed=None, outdir=None, extra_flags=(), multiple_errors=4):
     res = UnitResult(unit)
     t0 = time.time()
     try:
@@ -135,7 +135,7 @@ def run_unit(unit, rlimit=30, seed=None, outdir=None, extra_flags=()):
         res.wall = time.time() - t0
         return res
     res.meta = meta
-    cmd = [VERUS, path, "--output-json", "--time", "--error-format=json", "--multiple-errors", "10", "--rlimit", str(meta.get("rlimit") or rlimit), "--no-report-long-running"]
+    cmd = [VERUS, path, "--output-json", "--time", "--error-format=json", "--multiple-errors", str(multiple_errors), "--rlimit", str(meta.get("rlimit") or rlimit), "--no-report-long-running"]
     cmd += list(meta.get("flags", [])) + list(extra_flags)
     if seed is not None:
         cmd += ["--smt-option", "smt.random_seed=%d" % seed]
